@@ -523,7 +523,6 @@ func recordIsDirOnPath(sh *kvShape, at *ssa.Call, moved ssa.Value) bool {
 	return false
 }
 
-
 // movePair: in a method of the key-value FS, a store of a loaded record under one name parameter that dominates the
 // delete of the name it was loaded from (the move of a regular file in Rename).
 type movePair struct{ store, del *ssa.Call }
